@@ -150,6 +150,8 @@ class Ctx:
             code = 3
         else:
             code = 0
+        if n_obl == 0:
+            self.level = "other"  # bounded stand-ins only: never reported as a proof
         self.write_evidence(n_obl - n_known_refuted, n_dis, len(violations), matched_known)
         for l in out:
             print(l)
